@@ -10,8 +10,14 @@ def _sizes(tier, k):
 
 def main(tier, t0):
     tasks = stage_check.tasks_for("C12", tier, scenario="two-thresholds", sizes=_sizes)
-    tasks += stage_check.tasks_for("C12", tier, scenario="single", judge="C12z", cfg={"fixed_threshold": 0.0}, sizes=_sizes)
-    tasks += stage_check.tasks_for("C12", tier, scenario="single", judge="C12o", cfg={"fixed_threshold": 1.0}, sizes=_sizes)
+    tasks += stage_check.tasks_for("C12", tier, scenario="single", judge="C12z", cfg={"fixed_threshold": 0.0}, sizes=_sizes, label="t=0")
+    tasks += stage_check.tasks_for("C12", tier, scenario="single", judge="C12o", cfg={"fixed_threshold": 1.0}, sizes=_sizes, label="t=1")
+    # the same three obligations with the ratios printed rounded (decimals = 0 / 1): rounding is presentation only and must not move the accept/reject boundary
+    few = lambda st: st["name"] in ("opt-literal", "literal-cards", "ref-vs-iri", "incoming-fresh", "sm-single-constraint", "three-rows-mixed")
+    for dec in (0, 1):
+        tasks += stage_check.tasks_for("C12", tier, scenario="two-thresholds", sizes=_sizes, cfg={"decimals": dec}, structure_filter=few, label="decimals=%d" % dec)
+        tasks += stage_check.tasks_for("C12", tier, scenario="single", judge="C12z", cfg={"fixed_threshold": 0.0, "decimals": dec}, sizes=_sizes, structure_filter=few, label="t=0,decimals=%d" % dec)
+        tasks += stage_check.tasks_for("C12", tier, scenario="single", judge="C12o", cfg={"fixed_threshold": 1.0, "decimals": dec}, sizes=_sizes, structure_filter=few, label="t=1,decimals=%d" % dec)
     return stage_check.main("C12", tier, t0, tasks=tasks,
                             explanation="two symbolic real thresholds t1 <= t2 inside one path (two fresh Shapers on the same symbolic profile): keys(t2) subset keys(t1), shapes(t2) subset shapes(t1), "
                                         "figures of facts present at both are equal under the path condition; plus threshold 0 fixed: every observed exact-cardinality feature appears as a constraint or a comment. "
